@@ -6,7 +6,7 @@
 (* Record: tid, n, q, hasCats, glyphs[gid+1] = [cat, abvm, anchors =       *)
 (*   << [key, num, isMark, x, y] >> (x, y at scale 4)], tags, F.           *)
 (***************************************************************************)
-EXTENDS OTPos, UfoKerning, Json, IOUtils, TLC, TLCExt
+EXTENDS OTPos, MarkWriter, Json, IOUtils, TLC, TLCExt
 
 Traces == ndJsonDeserialize(IOEnv.TRACE_FILE)
 VARIABLE i
@@ -61,12 +61,43 @@ KnownCount(t) == Cardinality({x \in Items(t) : ~ItemOK(t, x) /\ InKnown(t, x)})
 NonEmpty(t) == Cardinality({x \in Items(t) : (IF x[2] = "lig" THEN Cands(t, x[3], x[5], LAMBDA a : a.num = x[4])
                                                ELSE Cands(t, x[3], x[5], LAMBDA a : a.num = 0)) # {}})
 
+\* ---- conformance with the writer model (MarkWriter.tla): for every glyph pair outside abvm / blwm routing, in every
+\* language system that exposes a mark feature, the compiled lookups attach exactly what the model's lookups attach
+\* (model clause: a deviation that still satisfies the property is reported as DRIFT)
+Modelled(t) == "model" \in DOMAIN t /\ t.model
+ModelItems(t) ==
+  {x \in {"base", "mark", "lig"} \X Exported(t) \X (0..Max({0} \cup {MaxComp(t, b) : b \in Exported(t)})) \X Exported(t) :
+     /\ ~G(t, x[2]).abvm /\ ~G(t, x[4]).abvm
+     /\ IF x[1] = "lig" THEN x[3] >= 1 /\ x[3] <= MaxComp(t, x[2]) ELSE x[3] = 0}
+ModelBad(t) ==
+  IF ~Modelled(t) THEN {}
+  ELSE LET P == WPlan(t) IN
+       {y \in Contexts(t) \X ModelItems(t) :
+          Attach(t.F, t.tags[y[1][1]].tag, y[1][2], y[2][1], y[2][2], y[2][3], y[2][4]) # WAttach(t, P, y[2][1], y[2][2], y[2][3], y[2][4])}
+\* no language system exposes a mark feature although the source defines attachments (outside known finding F-C06-1):
+\* evaluated against the writer-independent candidates
+PseudoItems(t) ==
+  {x \in {"base", "mark", "lig"} \X Exported(t) \X (0..3) \X Exported(t) :
+     LET kind == x[1]  b == x[2]  comp == x[3]  m == x[4] IN
+     /\ b # m /\ IsMarkD(t, m) /\ G(t, b).abvm = G(t, m).abvm
+     /\ ~Known_C06_1(t, b) /\ ~Known_C06_1(t, m)
+     /\ CASE kind = "base" -> comp = 0 /\ ~IsMarkD(t, b) /\ CatOK(t, b, "base")
+          [] kind = "mark" -> comp = 0 /\ IsMarkD(t, b)
+          [] kind = "lig"  -> comp >= 1 /\ comp <= MaxComp(t, b) /\ ~IsMarkD(t, b) /\ CatOK(t, b, "ligature")
+     /\ (IF kind = "lig" THEN Cands(t, b, m, LAMBDA a : a.num = comp) ELSE Cands(t, b, m, LAMBDA a : a.num = 0)) # {}}
+FeatureMissing(t) == Contexts(t) = {} /\ PseudoItems(t) # {}
+
 Init == i = 1
 Next ==
   /\ i <= Len(Traces)
-  /\ LET t == Traces[i]  bad == Bad(t)
-     IN PrintT(<<"VERDICT", t.tid, IF bad = {} THEN "none" ELSE "anchors-coincide", "none", Cardinality(Items(t)), NonEmpty(t),
-                 KnownCount(t), ToString(IF bad = {} THEN <<>> ELSE CHOOSE x \in bad : TRUE)>>)
+  /\ LET t == Traces[i]  bad == Bad(t)  missing == FeatureMissing(t)  mbad == ModelBad(t)
+     IN PrintT(<<"VERDICT", t.tid,
+                 IF missing THEN "mark-feature-present" ELSE IF bad = {} THEN "none" ELSE "anchors-coincide",
+                 IF mbad = {} THEN "none" ELSE "model-attachment",
+                 Cardinality(Items(t)), NonEmpty(t),
+                 KnownCount(t), ToString(IF bad # {} THEN CHOOSE x \in bad : TRUE
+                                         ELSE IF mbad # {} THEN CHOOSE x \in mbad : TRUE
+                                         ELSE IF missing THEN CHOOSE x \in PseudoItems(t) : TRUE ELSE <<>>)>>)
   /\ i' = i + 1
 Spec == Init /\ [][Next]_i
 =============================================================================
